@@ -10,7 +10,7 @@ use futures::{Sink, Stream};
 use selium_protocol::{ErrorPayload, Frame, MessagePayload};
 use selium_std::errors::{Result as SResult, SeliumError};
 use shim_world::{any_below, any_bool, Gate, GATE0};
-use std::collections::HashMap;
+use selium_protocol::collections::HashMap;
 use std::pin::Pin;
 use std::task::{Context, Poll};
 
